@@ -2,7 +2,6 @@ import DoitModel.Proofs.C13Forget
 import DoitModel.Proofs.C13Fuel
 import DoitModel.Proofs.C13Ignore
 import DoitModel.Proofs.C13Reset
-import DoitModel.Proofs.C13Persist
 import DoitModel.Proofs.C13Spec
 /-! # C13 — forget, ignore and reset-dep have exactly their documented effect
 
@@ -144,36 +143,28 @@ theorem C13_ignore_run (g : Graph) (s : St) (order : List Name) (always : Bool) 
   exact ⟨fun hr => i1.ignored t hmem hr, fun hex => i2 t hmem hex⟩
 
 /-- the operations after which a mark on `T` is still there: everything except a `forget` whose documented selection
-    contains `T` -- and a change of `--check_file_uptodate`: after such a change `get_status` inside `reset-dep` drops
-    the whole record, mark included (open finding `resetdep-checker-change-drops-ignore`) -/
+    contains `T` (file edits, runs, `reset-dep`, further `ignore`s, changes of `--check_file_uptodate`, `forget`s of
+    other tasks) -/
 def keeps (g : Graph) (T : Name) : COp → Prop
   | .forget a dflt => ¬ForgetSel g a dflt T
-  | .checker _ => False
   | _ => True
 
-/-- every record of a DB built from scratch under one checker satisfies `CkOk` -/
-theorem C13_ckOk_init (defs : Name → TaskDef) (c : Checker) : CkOk (initC defs c) := by
-  intro t; simp [initC, checkerChanged, Rcd.empty]
-
-/-- **ignore (until forgotten).**  In a DB whose records were all written under the configured checker (`CkOk`: any DB
-    built from scratch without changing `--check_file_uptodate`, `C13_ckOk_init` + this theorem), the mark survives
-    every history of file edits, runs (whatever they execute, fail or skip), `reset-dep`s, further `ignore`s and
-    `forget`s of other tasks. -/
-theorem C13_ignore_persists (g : Graph) (T : Name) (h : List COp) (s : St) (hck : CkOk s) (hs : (s.rcd T).ign = true)
-    (hk : ∀ op ∈ h, keeps g T op) : CkOk (runC true g s h) ∧ ((runC true g s h).rcd T).ign = true := by
+/-- **ignore (until forgotten).**  From any DB state the mark survives every history that does not forget the task:
+    file edits, runs (whatever they execute, fail or skip), `reset-dep`s, changes of the configured checker, further
+    `ignore`s and `forget`s of other tasks.  (Before 017f29e `reset-dep` after a checker change dropped the mark:
+    `C13_pinned_resetdep_counterexample`.) -/
+theorem C13_ignore_persists (g : Graph) (T : Name) (h : List COp) (s : St) (hs : (s.rcd T).ign = true)
+    (hk : ∀ op ∈ h, keeps g T op) : ((runC true g s h).rcd T).ign = true := by
   induction h generalizing s with
-  | nil => exact ⟨hck, hs⟩
+  | nil => exact hs
   | cons op ops ih =>
     simp only [runC, List.foldl_cons]
-    have hop : ∀ c, op ≠ .checker c := by
-      intro c hc; subst hc; exact absurd (hk _ List.mem_cons_self) (by simp [keeps])
     apply ih
-    · exact stepC_ckOk g s op hop hck
     · cases op with
       | edit p sz c => simp only [stepC, step]; split <;> simpa [writeFile] using hs
       | touch p => simp only [stepC, step]; split <;> simpa using hs
       | delete p => simp only [stepC, step]; split <;> simpa using hs
-      | checker c => exact absurd rfl (hop c)
+      | checker c => simpa [stepC] using hs
       | forget a dflt =>
         simp only [stepC]
         rw [forgetCmd_keeps g a dflt s T (hk _ List.mem_cons_self)]; exact hs
@@ -183,9 +174,9 @@ theorem C13_ignore_persists (g : Graph) (T : Name) (h : List COp) (s : St) (hck 
         · rw [ignList_rcd]; split <;> simp [hs]
         all_goals exact hs
       | reset names =>
-        simp only [stepC, resetCmd]
+        simp only [stepC, if_true, resetCmd]
         split
-        · exact (resetList_keeps _ s T hck hs).2
+        · exact resetList_keeps_ign _ s T hs
         all_goals exact hs
       | run order always plan => simp only [stepC]; exact runAll_keeps_ign true always g plan order _ T hs
     · intro o ho; exact hk o (List.mem_cons_of_mem _ ho)
@@ -197,16 +188,18 @@ def sMarked : St :=
   let s0 := initC (fun t => if t = 0 then ⟨[0], [], []⟩ else TaskDef.empty) .md5
   setIgn (runTask true (step true s0 (.edit 0 4 1)) 0 true false [] none) 0
 
-/-- the pinned-independent behaviour behind the open finding: after a checker change `reset-dep` drops the mark --
-    `0` is ignored, the checker changes, `reset-dep 0`: the mark is gone and the next run does not report `0` ignored -/
-theorem C13_resetdep_checker_change_drops_mark :
-    ((runC true gOne sMarked [.checker .ts, .reset [0]]).rcd 0).ign = false ∧
-    ((runC true gOne sMarked [.reset [0]]).rcd 0).ign = true := by decide
+/-- F-C13c, the tree before 017f29e: `0` is ignored, the checker changes, `reset-dep 0`: `get_status` drops the whole
+    record and the mark is gone although nothing was forgotten; the repaired command re-applies it (and keeps values
+    and result as before) -/
+theorem C13_pinned_resetdep_counterexample :
+    ((runC false gOne sMarked [.checker .ts, .reset [0]]).rcd 0).ign = false ∧
+    ((runC true gOne sMarked [.checker .ts, .reset [0]]).rcd 0).ign = true ∧
+    ((runC true gOne sMarked [.checker .ts, .reset [0]]).rcd 0).checker = some .ts := by decide
 
 /-- **ignore, as stated.**  After an accepted `ignore names`, through any such history, in any later run: the named
     tasks, their sub-tasks and everything reaching them over `task_dep` edges is reported ignored; tasks having one of
     them as setup-task are not executed. -/
-theorem C13_ignore (g : Graph) (names l : List Name) (s0 : St) (h : List COp) (T : Name) (hck : CkOk s0)
+theorem C13_ignore (g : Graph) (names l : List Name) (s0 : St) (h : List COp) (T : Name)
     (hacc : ignoreTarget g names = .tasks l) (hT : T ∈ l) (hk : ∀ op ∈ h, keeps g T op)
     (order : List Name) (always : Bool) (plan : Name → Plan) (hnd : order.Nodup)
     (hbad : (runAll true always g plan (runC true g (ignoreCmd g names s0) h) order).bad = false)
@@ -217,8 +210,7 @@ theorem C13_ignore (g : Graph) (names l : List Name) (s0 : St) (h : List COp) (T
       ∃ o, outOf (runAll true always g plan (runC true g (ignoreCmd g names s0) h) order) t = some o ∧ o.executed = false) := by
   have hmark : ((ignoreCmd g names s0).rcd T).ign = true := by
     rw [(C13_ignore_cmd g names l s0 hacc).2.1 T hT]
-  have hck1 : CkOk (ignoreCmd g names s0) := stepC_ckOk g s0 (.ignore names) (fun c hc => by cases hc) hck
-  have hlater := (C13_ignore_persists g T h _ hck1 hmark hk).2
+  have hlater := C13_ignore_persists g T h _ hmark hk
   have mono : ∀ x, IgnReach g (runC true g (ignoreCmd g names s0) h).defs (fun k => k = T) x →
       IgnReach g (runC true g (ignoreCmd g names s0) h).defs
         (fun k => ((runC true g (ignoreCmd g names s0) h).rcd k).ign) x := by
